@@ -8,7 +8,7 @@ import contextlib, io, json, threading
 from common import *
 
 FUEL = 5000
-NS = [1, 2, 3, 4, 5, 8, 10]
+NS = [1, 2, 3, 4, 5, 7, 8, 10, 16]
 KEY = "progress-stop-nonpositive"
 
 
@@ -39,11 +39,20 @@ def classes():
             self._prog = prog
             self._entry = {}
             self.register_agent_factory("a", lambda aid, model, props: LogAgent(aid, model, props, "a"))
+            self.register_agent_factory("b", lambda aid, model, props: LogAgent(aid, model, props, "b"))
 
         def _do(self, kind, r, s, a):
             for act in self._prog.get((kind, r, s, a), ()):
                 if act == "c":
                     self.create_agent("a", {})
+                elif act == "C":                       # wave 7: an agent of the second type (the scheduler must not order by type)
+                    self.create_agent("b", {})
+                elif act == "r":                       # wave 7: configure_agents([]) removes everybody (model.agents rebound to a new empty list)
+                    self.configure_agents([])
+                elif act[0] in "eE":                   # wave 7: events pending at the next step (the scheduler's routing table exists then)
+                    from BPTK_Py import Event, DelayedEvent
+                    rid = int(act[1:])
+                    self.enqueue_event(Event("ping", 0, rid) if act[0] == "e" else DelayedEvent("ping", 0, rid, 1))
                 elif act == "x":                       # cancellation: the public flag the scheduler tests before every step
                     self.scheduler.running = False
                 else:
@@ -55,6 +64,7 @@ def classes():
 
         def begin_round(self, time, sim_round, step):
             self._log.append(("B", sim_round, step, time))
+            self._steps_with_events = getattr(self, "_steps_with_events", 0) + bool(getattr(self, "_pending_at_entry", 0))
             self._do("B", sim_round, step, 0)
             # population and next id when the agent loop is entered (reference check only)
             self._log.append(("entry", [a.id for a in self.agents], self.next_agent_id))
@@ -62,6 +72,8 @@ def classes():
         def end_round(self, time, sim_round, step):
             self._log.append(("E", sim_round, step, time))
             self._do("E", sim_round, step, 0)
+            # events the next step will find (evidence only)
+            self._pending_at_entry = len(self.events) + len(self.scheduler.delayed_events)
 
     return LogModel, LogAgent, LogCollector
 
@@ -76,12 +88,36 @@ def new_model(case):
     for k, r, s, a, acts in case["prog"]:
         prog.setdefault((k, r, s, a), []).extend(acts)
     m.setup(prog)
-    dt = 1 / case["n"]
+    dt = case_dt(case)
     assert round(1 / dt) == case["n"]
     m.run_specs(case["start"], case["stop"], dt)
-    for _ in range(case["k0"]):
-        m.create_agent("a", {})
+    for i in range(case["k0"]):
+        m.create_agent("a" if i % 2 == 0 else "b", {})      # wave 7: two agent types interleaved in creation order
     return m, dt
+
+
+def case_dt(case):
+    """dt as the caller passes it: a float 1/n, or (wave 7, value kind) the int 1"""
+    return 1 if (case["n"] == 1 and case.get("dt_int")) else 1 / case["n"]
+
+
+class Widget:
+    """stand-in for the progress widget Model.run(show_progress_widget=True) hands to the scheduler"""
+    value = None
+
+
+def map_act(x):
+    """program action -> what the driver's Prog sees: events do nothing to the population, both agent types are `create`,
+    configure_agents([]) deletes every id"""
+    if x == "C":
+        return "c"
+    if x == "r":
+        return "d" + ".".join(map(str, range(400)))
+    return x
+
+
+def model_acts(acts):
+    return [map_act(x) for x in acts if x != "x" and x[0] not in "eE"]
 
 
 def ev_str(e):
@@ -127,7 +163,11 @@ def run_real(case, span):
     crashed = False
     if case["mode"] == "run":
         try:
-            m.run(collect_data=bool(case["collect"]))
+            if case.get("widget"):          # what Model.run(show_progress_widget=True) does, without ipywidgets
+                m._widget = Widget()
+                m.scheduler.run(m, m._widget, bool(case["collect"]))
+            else:
+                m.run(collect_data=bool(case["collect"]))
         except ZeroDivisionError:
             crashed = True
         lines.append(status_real(m, m._log, crashed, span))
@@ -160,14 +200,14 @@ def create_bound(case):
     per = {}
     for k, r, s, a, acts in case["prog"]:
         if k in "HA":
-            per[(r, s, a)] = per.get((r, s, a), 0) + sum(1 for x in acts if x == "c")
+            per[(r, s, a)] = per.get((r, s, a), 0) + sum(1 for x in acts if x in ("c", "C"))
     c = max(per.values(), default=0)
     n = max((a + 1 for (r, s, a), v in per.items() if v > 0), default=0)
     return n, c
 
 
 def requests(case, fuel=FUEL):
-    prog = ";".join(f"{k}:{r}:{s}:{a}:{','.join(x for x in acts if x != 'x')}" for k, r, s, a, acts in case["prog"]) or "-"
+    prog = ";".join(f"{k}:{r}:{s}:{a}:{','.join(model_acts(acts))}" for k, r, s, a, acts in case["prog"]) or "-"
     req = [f"prog {prog}",
            f"new {case['start']} {case['stop']} {case['n']} {case['collect']} {case['k0']} {fuel} {fbits(1 / case['n'])}"]
     if case["mode"] == "run":
@@ -234,7 +274,7 @@ def run_history(case, span):
 
 
 def requests_history(case, fuel):
-    prog = ";".join(f"{k}:{r}:{s}:{a}:{','.join(x for x in acts if x != 'x')}" for k, r, s, a, acts in case["prog"]) or "-"
+    prog = ";".join(f"{k}:{r}:{s}:{a}:{','.join(model_acts(acts))}" for k, r, s, a, acts in case["prog"]) or "-"
     s0 = case["segments"][0]
     req = [f"prog {prog}", f"new {s0['start']} {s0['stop']} {s0['n']} {s0['collect']} {case['k0']} {fuel} {fbits(1 / s0['n'])}"]
     for seg in case["segments"]:
@@ -288,10 +328,55 @@ def gen_history_cases(chk, rng):
     return cases
 
 
+def run_shared_scheduler(case, span):
+    """wave 7: ONE scheduler object serving TWO models (own populations, own run specs), called alternately; every call is checked
+    against the specification for the model and run specs it was made with (reference only). Returns first violation or None."""
+    segs = case["segments"]
+    models = []
+    for i in (0, 1):
+        s0 = next(sg for sg in segs if sg["model"] == i)
+        m, _ = new_model({"start": s0["start"], "stop": s0["stop"], "n": s0["n"], "k0": case["k0"] + i, "prog": case["prog"]})
+        models.append(m)
+    models[1].scheduler = models[0].scheduler
+    for i, seg in enumerate(segs):
+        m = models[seg["model"]]
+        dt = 1 / seg["n"]
+        m.run_specs(seg["start"], seg["stop"], dt)
+        mark, crashed = len(m._log), False
+        try:
+            if seg["kind"] == "run":
+                m.run(collect_data=bool(seg["collect"]))
+            else:
+                for st in seg["steps"]:
+                    m.scheduler.run_step(m, st[1], st[2], None, bool(seg["collect"]))
+        except ZeroDivisionError:
+            crashed = True
+        v = spec_check(dict(seg_case(dict(case, k0=case["k0"] + seg["model"]), seg)), m._log[mark:], crashed, m, dt)
+        if v:
+            return (v[0], f"call #{i + 1} (model {seg['model'] + 1} of two models sharing one scheduler object, run_specs({seg['start']}, {seg['stop']}, {dt})): {v[1]}")
+    return None
+
+
+def gen_shared_scheduler_cases():
+    cases = []
+    def seg(mi, start, stop, n, collect, kind="run", steps=None):
+        d = {"model": mi, "start": start, "stop": stop, "n": n, "collect": collect, "kind": kind}
+        if steps is not None:
+            d["steps"] = steps
+        return d
+    for (n1, n2) in [(1, 2), (2, 1), (4, 2), (2, 2)]:
+        for c in (0, 1):
+            cases.append({"mode": "shared", "k0": 1, "prog": [["A", 0, 0, 0, ["c"]]], "segments": [
+                seg(0, 0, 1, n1, c), seg(1, -1, 0, n2, 1 - c), seg(0, 0, 1, n1, c), seg(1, 0, 0, n2, c, "steps", [["sched", 0, s_] for s_ in range(n2)])]})
+    return cases
+
+
 def violation_of(case, span):
     """(key, text) or None for a case of either kind, on the current tree"""
     if case.get("mode") == "history":
         return run_history(case, span)[1]
+    if case.get("mode") == "shared":
+        return run_shared_scheduler(case, span)
     _, lg, cr, mm, d = run_real(case, span)
     return spec_check(case, lg, cr, mm, d)
 
@@ -436,6 +521,13 @@ def probe():
     # the only non-terminating case: EVERY agent creates an agent when it acts. The real `for agent in model.agents` keeps finding a new
     # last element; a watchdog in act() stops it after K acts so that the probe returns (the loop itself would not)
     facts["unbounded"] = unbounded_probe(40)
+    # wave 7: a step that starts with pending events (immediate and delayed, sent in the previous step) for a population of two agent
+    # types in interleaved creation order: the agents still act in list order, each once
+    case = {"start": 0, "stop": 0, "n": 2, "collect": 1, "k0": 3, "mode": "run", "prog": [["E", 0, 0, 0, ["e2", "E0", "e1"]]]}
+    _, log, crashed, m, dt = run_real(case, True)
+    bl = blocks_of(log)
+    facts["order_probe"] = {"acted_step_0_1": bl[1]["acted"] if len(bl) > 1 else None,
+                            "pending_events_at_entry": getattr(m, "_steps_with_events", 0), "types": [a.agent_type for a in m.agents]}
     # mid-step iteration semantics on the real scheduler: agent 0 creates agent 2 (acts in this step), agent 2 creates agent 3
     # (nested, acts in this step), deletes agent 0 (the list object is rebound) and creates agent 4 (acts from the next step on)
     case = {"start": 1, "stop": 1, "n": 1, "collect": 1, "k0": 2, "mode": "run",
@@ -497,6 +589,11 @@ def gen_lean(facts):
                  "theorem unbounded_forever : ∀ fuel, (agentLoop spawnProg 0 0 fuel ⟨[0], true, ⟨[0], 1⟩⟩ []).2.2 = true :=\n"
                  "  fun fuel => agentLoop_diverges spawnProg 0 0 (fun _ => ⟨rfl, rfl⟩) fuel _ [] rfl (by simp)\n"
                  "#print axioms unbounded_probe\n#print axioms unbounded_forever\n")
+    op = facts.get("order_probe") or {}
+    if op.get("acted_step_0_1") is not None:
+        body += ("/-- with events pending at entry and two agent types interleaved the real scheduler lets the agents act in list order -/\n"
+                 "theorem order_probe : (stepOut quietProg { start := 0, stop := 0, n := 2, collectOn := true, fuel := 3 } ⟨[0, 1, 2], 3⟩ 0 1).acted = "
+                 + "[" + ", ".join(map(str, op["acted_step_0_1"])) + "] := by decide\n#print axioms order_probe\n")
     ms = facts.get("midstep") or {}
     mid = ""
     if ms.get("acted") is not None:
@@ -527,8 +624,13 @@ def gen_prog(rng, positions, k0, density):
             a = 0 if kind in "BE" else rng.below(bound + 2)
             acts = []
             for _ in range(rng.range(1, 3)):
-                if rng.chance(1, 2):
-                    acts.append("c"); bound += 1
+                q = rng.below(16)
+                if q == 0:
+                    acts.append(rng.choice("eE") + str(rng.below(bound + 1)))
+                elif q == 1 and kind in "BE":
+                    acts.append("r")
+                elif q < 9:
+                    acts.append(rng.choice(["c", "c", "C"])); bound += 1
                 else:
                     k = rng.range(0, 2)
                     acts.append("d" + ".".join(str(rng.below(bound + 2)) for _ in range(k)))
@@ -584,6 +686,35 @@ def gen_negative_cases():
     return cases
 
 
+def gen_wave7_cases():
+    """value kinds (dt the int 1, many steps per round, 1/dt = 7 or 16, a large start time), events pending when a step starts (sent in
+    the previous step, immediate and delayed, to the first / last / a deleted agent), agents of two types interleaved with creations of
+    both types, configure_agents([]) in begin_round / end_round, a progress widget object."""
+    cases = []
+    for collect in (0, 1):
+        for (a, b) in [(0, 1), (-1, 0), (2, 2)]:
+            cases.append({"start": a, "stop": b, "n": 1, "collect": collect, "k0": 3, "prog": [["A", a, 0, 1, ["C", "c"]]], "mode": "run", "dt_int": 1})
+            cases.append({"start": a, "stop": b, "n": 1, "collect": collect, "k0": 2, "prog": [], "mode": "steps", "dt_int": 1,
+                          "steps": [["sched", a, 0], ["model", 0]]})
+        for (a, b, n) in [(0, 0, 100), (-1, -1, 16), (5, 5, 7), (1000000, 1000001, 4), (-1000000, -1000000, 8)]:
+            cases.append({"start": a, "stop": b, "n": n, "collect": collect, "k0": 1, "prog": [["A", a, n - 1, 0, ["c"]]], "mode": "run"})
+        for k0 in (2, 3):
+            for tgt in (0, k0 - 1, k0):          # receiver: first, last, an agent created later in the sending step
+                for ev in "eE":
+                    cases.append({"start": 0, "stop": 1, "n": 2, "collect": collect, "k0": k0, "mode": "run",
+                                  "prog": [["A", 0, 0, 0, [f"{ev}{tgt}", "C", f"{ev}0"]], ["A", 0, 1, k0 - 1, ["d0"]], ["E", 1, 0, 0, [f"{ev}1"]]]})
+        for kind in "BE":
+            cases.append({"start": 0, "stop": 1, "n": 2, "collect": collect, "k0": 3, "mode": "run",
+                          "prog": [[kind, 0, 1, 0, ["r"]], ["A", 1, 0, 0, ["c"]], ["B", 1, 0, 0, ["C", "c"]]]})
+            cases.append({"start": 0, "stop": 0, "n": 2, "collect": collect, "k0": 2, "mode": "run",
+                          "prog": [[kind, 0, 0, 0, ["c", "r", "C"]]]})
+        for n in (1, 2):
+            cases.append({"start": -1, "stop": 0, "n": n, "collect": collect, "k0": 2, "prog": [["A", 0, 0, 1, ["c"]]], "mode": "run", "widget": 1})
+    for c in cases:
+        c["wave7"] = True
+    return cases
+
+
 def gen_cancel_cases():
     """scheduler.running cleared in begin_round / end_round of every position of a 2x2 and a 1x3 grid, once also twice, with and
     without a second `run` afterwards (the flag is never set back)."""
@@ -618,6 +749,7 @@ def gen_cases(chk):
     cases += gen_midstep_cases()
     cases += gen_cancel_cases()
     cases += gen_negative_cases()
+    cases += gen_wave7_cases()
     # random whole runs with programs
     for _ in range(120 if chk.quick else 2500):
         start = rng.range(-6, 6)
@@ -663,7 +795,7 @@ def shrink_case(case, fails):
                     break
             if changed:
                 break
-        if not changed and case.get("mode") == "history":
+        if not changed and case.get("mode") in ("history", "shared"):
             segs = case["segments"]
             for i in range(len(segs)):
                 if len(segs) > 1:
@@ -716,8 +848,13 @@ def bptk_level(specs):
                         df = b.run_scenarios(scenarios=["sc"], scenario_managers=[nm], agents=["a"], agent_states=["active"],
                                              agent_properties=[], agent_property_types=[], equations=[], series_names={},
                                              return_format="df")
-                        out.append(((start, stop, n), None if df is None else
-                                    [(float(t), int(v)) for t, v in df[f"{nm}_sc_a_active"].items()]))
+                        first = None if df is None else [(float(t), int(v)) for t, v in df[f"{nm}_sc_a_active"].items()]
+                        # wave 7, second use: asking again returns the same rows (the finished scenario is neither skipped nor run twice)
+                        df2 = b.run_scenarios(scenarios=["sc"], scenario_managers=[nm], agents=["a"], agent_states=["active"],
+                                              agent_properties=[], agent_property_types=[], equations=[], series_names={},
+                                              return_format="df")
+                        second = None if df2 is None else [(float(t), int(v)) for t, v in df2[f"{nm}_sc_a_active"].items()]
+                        out.append(((start, stop, n), first if first == second else ("second call differs", first, second)))
                     except Exception as e:
                         out.append(((start, stop, n), f"raises {type(e).__name__}"))
             finally:
@@ -773,7 +910,10 @@ def run(chk):
     soft = [False, False]            # lines of cancelled runs: compared as evidence, never a finding
     first_spec = None
     dist = {"run": 0, "steps": 0, "with_program": 0, "stop<=0": 0, "empty_span": 0, "steps_total": 0, "n": {}, "max_fuel_bound": 0,
-            "labels_pow2_on_grid": 0, "labels_other_on_grid": 0, "labels_other_off_grid": 0, "nested_creation_steps": 0, "cancelled_runs": 0, "reruns": 0, "midstep_systematic": 0, "negative_start_systematic": 0}
+            "labels_pow2_on_grid": 0, "labels_other_on_grid": 0, "labels_other_off_grid": 0, "nested_creation_steps": 0, "cancelled_runs": 0, "reruns": 0, "midstep_systematic": 0, "negative_start_systematic": 0,
+            "kinds": {k: 0 for k in ("wave7_systematic", "dt_int", "progress_widget", "widget_value_is_final_progress", "events_sent",
+                                     "steps_with_pending_events", "second_type_created", "two_types_in_population",
+                                     "configure_agents_in_callback", "n>=16", "abs(start)>=1e6", "shared_scheduler_histories")}}
     for ci, case in enumerate(cases):
         lines, log, crashed, m, dt = run_real(case, span)
         bn, bc = create_bound(case)
@@ -784,6 +924,20 @@ def run(chk):
         dist["reruns"] += bool(case.get("rerun"))
         dist["midstep_systematic"] += bool(case.get("midstep"))
         dist["negative_start_systematic"] += bool(case.get("negative"))
+        acts_all = [x for e in case["prog"] for x in e[4]]
+        kinds = dist["kinds"]
+        kinds["wave7_systematic"] += bool(case.get("wave7"))
+        kinds["dt_int"] += bool(case.get("dt_int"))
+        kinds["progress_widget"] += bool(case.get("widget"))
+        kinds["events_sent"] += any(x[0] in "eE" for x in acts_all)
+        kinds["steps_with_pending_events"] += getattr(m, "_steps_with_events", 0)
+        kinds["second_type_created"] += any(x == "C" for x in acts_all)
+        kinds["two_types_in_population"] += len({a.agent_type for a in m.agents}) > 1 or case["k0"] > 1
+        kinds["configure_agents_in_callback"] += any(x == "r" for x in acts_all)
+        kinds["n>=16"] += case["n"] >= 16
+        kinds["abs(start)>=1e6"] += abs(case["start"]) >= 10 ** 6
+        if case.get("widget"):
+            kinds["widget_value_is_final_progress"] += (m._widget.value == m.scheduler.progress)
         from fractions import Fraction
         for e in log:
             if e[0] == "B":
@@ -835,6 +989,12 @@ def run(chk):
         chk.case(json.dumps(hc, sort_keys=True), nontrivial=nsteps > 0, sample=hc if len(json.dumps(hc)) < 400 else None)
         if v and first_spec is None:
             first_spec = (hc, v)
+    for sc_ in gen_shared_scheduler_cases():
+        v = run_shared_scheduler(sc_, span)
+        dist["kinds"]["shared_scheduler_histories"] += 1
+        chk.case(json.dumps(sc_, sort_keys=True), nontrivial=True)
+        if v and first_spec is None:
+            first_spec = (sc_, v)
     chk.cov["input_distribution"] = dist
     model = [canon_model(l, span) if "|" in l else l for l in drive("C12", req)]
     chk.cov["traces_validated_against_impl"] = len(cases)
@@ -905,7 +1065,7 @@ def replay(path):
         print("no concrete input stored:", r)
         return 1
     span = probe()["progressBySpan"]
-    if case.get("mode") == "history":
+    if case.get("mode") in ("history", "shared"):
         v = violation_of(case, span)
         print("case:", json.dumps(case))
         print("violation on the current tree:", v)
